@@ -7,7 +7,7 @@ PROP_MODULES = {
     'C20': ['contracts.builders', 'contracts.shared_grid', 'contracts.c03_grid', 'contracts.c04_meta', 'contracts.c08_creator', 'contracts.c13_expiry', 'contracts.c16_limits', 'contracts.c20_conditional'],
     'C17': ['contracts.builders', 'contracts.shared_grid', 'contracts.c03_grid', 'contracts.c17_upstream'],
     'C10': ['contracts.builders', 'contracts.shared_grid', 'contracts.c03_grid', 'contracts.c04_meta', 'contracts.c16_limits', 'contracts.c20_conditional', 'contracts.c10_auth', 'contracts.c14_merge'],
-    'C05': ['contracts.builders', 'contracts.shared_grid', 'contracts.c05_compact', 'contracts.c05_paths', 'contracts.c06_atomic'],
+    'C05': ['contracts.builders', 'contracts.shared_grid', 'contracts.c05_compact', 'contracts.c05_paths', 'contracts.c05_sqlite', 'contracts.c06_atomic'],
     'C19': ['contracts.builders', 'contracts.shared_grid', 'contracts.c05_compact'],
     'C06': ['contracts.builders', 'contracts.shared_grid', 'contracts.c05_compact', 'contracts.c06_atomic'],
     'C09': ['contracts.builders', 'contracts.shared_grid', 'contracts.c03_grid', 'contracts.c04_meta', 'contracts.c05_compact', 'contracts.c16_limits', 'contracts.c05_paths', 'contracts.c09_paths'],
